@@ -70,6 +70,21 @@ CHECKS["C19"] = ("metamorphic relation across spellings of one array item (alias
     "Spellings that collide with another item's spelling are not used.", "6 C19")
 NOT_BUILT = {}
 
+# sentences appended to the level text by the later rounds (13-14)
+EXTRA = {
+    "C02": " Prune flags on either / both dimensions are drawn too (ranges judged over all base cells); a categorical array inside a table variable is a drawn 3-D shape.",
+    "C04": " Every judge first performs drawn warm-up reads of other outputs (access-order sensitivity).",
+    "C06": " After all slices were read (with drawn warm-up reads) the partitions are requested a second time and the last one is compared again.",
+    "C08": " 3-D shapes are drawn and EVERY slice is judged against its own values under the one shared transform; drawn warm-up reads precede the order request.",
+    "C13": " 3-D shapes are drawn and every slice of the cube is judged against its own respondents; drawn warm-up reads.",
+    "C18": " set-reuse also hands the responses over as JSON text.",
+    "C19": " Dictionaries that list several unmatched references before the live key, and several spellings of one item before another live item, are drawn as well.",
+}
+for _k, _v in EXTRA.items():
+    _t = CHECKS[_k]
+    CHECKS[_k] = (_t[0], _t[1] + _v, _t[2], _t[3])
+
+
 def main():
     props = [json.loads(l) for l in open(os.path.join(HERE, "properties.jsonl"))]
     checks, na = [], []
